@@ -217,10 +217,14 @@ def _dec_cell(x0, y0, w, h, al, depth=0, fixed=False):
                      "loc": "NOPOLY"}, "alloc": al, "depth": depth}
 
 
-def gen_big_decimal(rng, target, op, follow=True):
+EXACT_SIDES = [F(1, 4), F(3), F(5, 8)]          # the size alone (thorough tier): the same results from representable sides
+
+
+def gen_big_decimal(rng, target, op, follow=True, exact=False):
     """A decimal layout (cell sides 0.1, 0.3, 0.7, 1.1 ...) and ONE operation whose result has `target` cells
     (griddify: the nearest product of two factors), optionally followed by another operation on the large result."""
-    s, s2 = rng.choice(DEC_SIDES), rng.choice(DEC_SIDES)
+    sides = EXACT_SIDES if exact else DEC_SIDES
+    s, s2 = rng.choice(sides), rng.choice(sides)
     if rng.random() < 0.5:
         s2 = s
     ox, oy = rng.choice([F(0), F(0), s, F(1, 10), F(23, 10)]), rng.choice([F(0), F(0), s2, F(3, 10)])
@@ -293,7 +297,7 @@ def gen_big_decimal(rng, target, op, follow=True):
     rng.shuffle(cells)
     if follow and rng.random() < 0.35 and target <= 1100:
         ops.append(rng.choice([["griddify"], ["uniform"], ["refine", F(0), 1], ["refine", t, 1]]))
-    return {"kind": f"decimal-big-{op}", "stream": "decimal", "big": 2 * target + 200, "cells": cells, "ops": ops,
+    return {"kind": f"{'exact' if exact else 'decimal'}-big-{op}", "stream": "decimal", "big": 2 * target + 200, "cells": cells, "ops": ops,
             "ths": [F(0), t, F(1)] if len(cells) <= 100 else [], "eps": None, "aeps": None}
 
 
